@@ -32,8 +32,11 @@ const NAMES: [&str; 7] = ["", "a", "issuer", "https://paseto.conrad.cafe/", "Iss
 
 fn leaf(b: &mut Builder, now: i128, claims: &RegSpec, lw: (u64, u32)) -> VSpec {
     let pick_name = |b: &mut Builder, have: &Option<String>| -> String {
-        match (have, b.rng.below(3)) {
-            (Some(s), 0 | 1) => s.clone(),
+        match (have, b.rng.below(6)) {
+            (Some(s), 0..=2) => s.clone(),
+            // a different string of the same length whose differences cancel under folding (transposed
+            // characters, the same substitution made twice, reversal, two case flips)
+            (Some(s), 3 | 4) if s.chars().count() >= 2 => near_miss(b, s),
             _ => b.rng.pick(&NAMES).to_string(),
         }
     };
@@ -50,6 +53,39 @@ fn leaf(b: &mut Builder, now: i128, claims: &RegSpec, lw: (u64, u32)) -> VSpec {
         14 => VSpec::Aud(pick_name(b, &claims.aud)),
         _ => VSpec::Flag(true),
     }
+}
+
+fn near_miss(b: &mut Builder, s: &str) -> String {
+    let mut c: Vec<char> = s.chars().collect();
+    let n = c.len();
+    let (i, j) = {
+        let i = b.rng.usize_below(n);
+        let mut j = b.rng.usize_below(n);
+        if j == i {
+            j = (i + 1) % n;
+        }
+        (i, j)
+    };
+    match b.rng.below(4) {
+        0 => c.swap(i, j),
+        1 => {
+            // the same substitution at two positions (ASCII only, so that the byte length is kept)
+            for k in [i, j] {
+                if c[k].is_ascii_alphanumeric() {
+                    c[k] = ((c[k] as u8) ^ 0x01) as char;
+                }
+            }
+        }
+        2 => c.reverse(),
+        _ => {
+            for k in [i, j] {
+                if c[k].is_ascii_alphabetic() {
+                    c[k] = ((c[k] as u8) ^ 0x20) as char;
+                }
+            }
+        }
+    }
+    c.into_iter().collect()
 }
 
 pub fn gen_vspec(b: &mut Builder, depth: u32, now: i128, claims: &RegSpec, lw: (u64, u32)) -> VSpec {
@@ -120,6 +156,11 @@ impl Scenario for C11 {
     }
     fn rule(&self) -> String {
         "each run: issuer and verifier nodes with their own simulated clocks (skew up to hours, jumps between issue and verify, network delay); claims are RegisteredClaims built explicitly or by RegisteredClaims::now(ttl) read from the issuer's clock; the scheduler aims each delivery at the instants the model marks as boundaries: verifier now in {exp, exp+-1ns, nbf, nbf+-1ns, exp+leeway(+-1ns), nbf-leeway(+-1ns)} and far past/future; the verifier's policy is a random validator expression of depth <= 3 over Time::valid_now/valid_at (+leeway), HasExpiry, FromIssuer/ForSubject/ForAudience, NoValidation, counting accept/reject leaves, and_then, Vec, slice, Box, Rc, Arc, evaluated both through unseal on a real token and directly (also through map); oracle: ten-line boolean interpreter at the verifier's clock; claims are returned iff the token is authentic and the reference accepts, otherwise ClaimsError; leaves are visited in order with short-circuit. distinct = (validator shape to depth 2, mapped, outcome) and the delivery tuples".into()
+    }
+    fn adopts(&self, v: &crate::world::Violation) -> bool {
+        // in these plans a panic during validate / unseal can only come from a validator evaluating
+        // (token-supplied) claims: the verifier's clock and leeway are kept inside jiff's range
+        v.property == "C04" && v.class == "panic" && (v.op == "validate" || v.op.starts_with("unseal"))
     }
     fn assumptions(&self) -> Vec<String> {
         vec!["now +- leeway is kept inside jiff's range (the property excludes the rest: jiff's Add/Sub panic by contract)".into()]
